@@ -235,8 +235,9 @@ CHECKS["C08"] = {
         H("opentype/gdef", "c08.go", "VerifH_C08_gdef", ["read"], quick={"timeout": 280, "shards": 2}),
         H("opentype/gtab", _G, "VerifH_C08_gsub", ["read"], quick={"timeout": 280}),
         H("opentype/gtab", _G, "VerifH_C08_gpos", ["read"], quick={"timeout": 280}),
-        H("opentype/gtab", _G, "VerifH_C08_gpos2", ["read"], quick={"timeout": 280, "shards": 4}),
+        H("opentype/gtab", _G, "VerifH_C08_gpos2", ["read"], quick={"timeout": 280, "shards": 6}),
         H("opentype/gtab", _G, "VerifH_C08_scriptlist", ["read"], quick={"timeout": 280}),
+        H("opentype/gtab", _G, "VerifH_C08_big", ["read"], quick={"timeout": 280, "shards": 11}),
         H("opentype/gtab", _G, "VerifH_C08_context", ["read"], quick={"params": {"ctxbig": 0}, "timeout": 280, "shards": 6}, thorough={"params": {"ctxbig": 1}, "timeout": 2400, "shards": 6}),
         H("opentype/gtab", _G, "VerifH_C08_lookuplist", ["read"], quick={"params": {"maxlookups": 2}, "timeout": 280}, thorough={"params": {"maxlookups": 3}, "timeout": 2400}),
     ],
